@@ -180,10 +180,12 @@ def execute(chk, scs, tag, modes, text=False):
 
 def state_id(o):
     """Identity of the state a history observation is expected to show: the open sessions and, as a set, what each was
-    last ACCEPTED to advertise.  Observations of different histories (and steps) with the same identity must show the
-    same artefact: they become lines of one id for the judge."""
+    last ACCEPTED to advertise - plus the BFD profiles the harness synchronises for the scenario (all profiles its
+    sessions name), which are session-manager state outside the session set.  Observations of different histories (and
+    steps) with the same identity must show the same artefact: they become lines of one id for the judge."""
     st = sorted((s["k"], sorted(vlib.canon(a) for a in s["advs"])) for s in o["sessions"] if not s["ghost"])
-    return "h" + hashlib.sha1(vlib.canon(st).encode()).hexdigest()[:14]
+    bfd = sorted({s["bfd"] for s in o["sessions"] if s["bfd"]})
+    return "h" + hashlib.sha1(vlib.canon([st, bfd]).encode()).hexdigest()[:14]
 
 
 def lines_for(prop, out, hist_ids):
@@ -235,6 +237,9 @@ def judge(chk, lines, tag):
         # within one id: orders that produced no resource at all first (see FRRTrace!Verdict15), then by first order
         for key in sorted(groups, key=lambda k: (k[0], bool(groups[k][0].get("refusedok", True)),
                                                  bool(groups[k][0].get("cr", {}).get("present", True)), groups[k][0]["ord"])):
+            paths = "+".join(sorted({x["path"] for x in groups[key] if x.get("path")}))
+            for x in groups[key]:
+                x["paths"] = paths            # which paths (callback / reconciler) showed exactly this
             o = {k: v for k, v in groups[key][0].items() if k not in ("text", "json")}
             o["ords"] = [x["ord"] for x in groups[key]]
             fh.write(json.dumps(o, separators=(",", ":")) + "\n")
@@ -257,7 +262,7 @@ def signature(name, fail, line):
     if ".Params." in name or name.endswith(".PasswordXor"):
         return name
     if name.endswith(".Handover"):
-        return "%s|path=%s" % (name, line.get("path"))
+        return "%s|path=%s" % (name, line.get("paths") or line.get("path"))
     if det:
         # the first (alphabetically) kind of neighbor it fails on: iface / v4 / v6
         return "%s|nbr=%s" % (name, sorted({_kind(by_k[d[0]]) for d in det})[0])
